@@ -137,9 +137,13 @@ def gen_instance(rng, sw=None, thorough=False):
         n3 = rng.randint(n2, n2 + 2)      # more lecturers than projects
     if shape == 'many-students':       # two-digit student ids, short lists
         n1 = rng.randint(8, 10)
+    if shape == 'big':                 # real-CBC lane at scale, no enumeration
+        n1 = rng.randint(10, 24)
+        n2 = rng.randint(5, 12)
+        n3 = rng.randint(2, 6) if na == 3 else n2
     ties1 = sw.get('ties1', rng.choice([0, 0, .3, .7, 1]))
     ties2 = sw.get('ties2', rng.choice([0, 0, .3, .7, 1]))
-    maxlen = min(n2, 3)
+    maxlen = min(n2, 5 if shape == 'big' else 3)
     students = []
     for i in range(n1):
         k = rng.randint(0 if rng.random() < 0.25 else 1, maxlen)
